@@ -21,7 +21,8 @@ func checkListerTable(c *Ctx) {
 		c.undecided(rule, "_lister.run/shape", pos, "no actor loop found")
 		return
 	}
-	w := &Walker{P: c.P, Inline: autoInline(c.P, fn, 12)}
+	roles := phiRoles(loop.Header, map[string]func(*ssa.Phi) bool{"tickch": phiTypeIs("<-chan int"), "runch": phiTypeIs("<-chan listResult"), "resultch": phiTypeIs("chan listResult"), "result": phiTypeIs("listResult"), "donech": phiTypeIs("<-chan struct{}")})
+	w := &Walker{P: c.P, Inline: autoInline(c.P, fn, 12), PhiNames: roles}
 	paths := w.IterRegion(fn, loop)
 	isPhi := func(t *Term, n string) bool { return t != nil && t.K == "phi" && t.S == n }
 	isTicker := func(t *Term) bool {
@@ -165,7 +166,7 @@ func checkListerTable(c *Ctx) {
 	c.paths += 0
 	c.notes = append(c.notes, fmt.Sprintf("_lister.run: %d iteration paths, %d abstract rows", len(paths), rows))
 	// initial phase: only runch enabled (first list running)
-	pre := (&Walker{P: c.P}).PreludeRegion(fn, loop)
+	pre := (&Walker{P: c.P, PhiNames: roles}).PreludeRegion(fn, loop)
 	c.paths += len(pre)
 	okk, detail := len(pre) == 1, ""
 	if okk {
@@ -305,7 +306,8 @@ func checkTickerTable(c *Ctx) {
 		c.undecided(rule, "_ticker.run/shape", pos, "no actor loop found")
 		return
 	}
-	w := &Walker{P: c.P, Inline: autoInline(c.P, fn, 12)}
+	roles := phiRoles(loop.Header, map[string]func(*ssa.Phi) bool{"nextch": phiTypeIs("chan int"), "count": phiTypeIs("int")})
+	w := &Walker{P: c.P, Inline: autoInline(c.P, fn, 12), PhiNames: roles}
 	if np := c.P.Func("", "_ticker.nextPeriod"); np != nil {
 		delete(w.Inline, np) // recognised by name; its body is checked by T-FLOW(period)
 	}
@@ -447,7 +449,7 @@ func checkTickerTable(c *Ctx) {
 	rows := c.runTable(ts, "_ticker.run", pos, paths)
 	c.notes = append(c.notes, fmt.Sprintf("_ticker.run: %d iteration paths, %d abstract rows", len(paths), rows))
 	// initial: timer armed with nextPeriod, nextch nil, donech closed on exit (defer)
-	pre := (&Walker{P: c.P}).PreludeRegion(fn, loop)
+	pre := (&Walker{P: c.P, PhiNames: roles}).PreludeRegion(fn, loop)
 	c.paths += len(pre)
 	okk, detail := len(pre) == 1, ""
 	if okk {
